@@ -281,6 +281,29 @@ PROPS['C03'] = {
                   'the count checks are what make the indexing safe; constant expressions are accepted exactly for the operators of the table regenerated from InitExpr::eval. Tied to the code by predicting OK / ERR for every mutant; panics anywhere (incl. the libraries and Component::parse) are caught by the oracle.',
     'technique': 'Lean 4 proof (guards imply safety of every indexing, for all event lists) + differential correspondence check on byte-level mutants',
 }
+PROPS['C23'] = {
+    'title': 'Side-effect report lists exactly the tagged additions and probes',
+    'props_files': ['Orca/Props/C23.lean'],
+    'families': [{'name': 'sidefx', 'quick_n': 6000, 'thorough_n': 400000}],
+    'rule': 'generated base modules (0-2 imported functions / globals, 1-3 local functions from 6 body templates with blocks, loops, if/else and branches, 0-2 local globals, an imported or local memory, '
+            'exports, a data segment, 1-6 function types) x histories of 2-10 operations: add_func_type, add_import_func / add_imported_global / add_import_memory, FunctionBuilder::finish_module, add_global (constant or '
+            'global.get initialiser), add_local_memory, add_export_func, add_data (active / passive) - each through the _with_tag API with a unique tag, through the plain API (default tag) or with no tag where the API takes an Option - '
+            'deletions of added functions / globals / exports, and probes (before / after / alternate / semantic_after / block_entry / block_exit / block_alt / function entry / exit, with or without append_tag_at, '
+            'several injections into one list) whose bodies call functions and read globals by the ids the caller holds; the history is applied to two parses, one encoded and one pulled; '
+            'three case classes: plain modes only, special modes on separate functions, both mixed (probe records of mixed cases are judged by the oracle only); distinct by case line; all non-trivial',
+    'trusted': COMMON_TRUST + [
+        'M2 (Orca.Edit) supplies the id maps (its theorems are C05-C09)',
+        'modelled, not verified: where special modes are lowered to (M3) is not repeated in M12 - function entry / exit bodies are compared per case, block-level lists only through the oracle; '
+        'the text of record contents (signatures, import names, initialisers) is produced by the driver from the same markers the harness uses',
+    ],
+    'assumptions': ['the history deletes only added entities nothing refers to (a reference to a deleted function makes the encoder panic, which is C09\'s subject)'],
+    'design_ref': 'DESIGN.md section 6, C23',
+    'level_text': 'Lean 4 theorems, for every parsed module and every history of additions, deletions and probes: nothing the parser built is reported; each tagged addition appends exactly one record with its tag and content to its kind and '
+                  'nothing else; an untagged addition or an already present signature appends none; a deletion removes exactly that record (and the import entry\'s); one record per probe list; the body of every before / after / alternate '
+                  'record is a contiguous run of the code the function is encoded with, through the same id maps. PARTIAL: lowering of special modes is not in M12 (function entry / exit records are compared per case; block-level tags are '
+                  'lost - finding F25). Tied to the code by predicting the whole report of every case and by an oracle that reads the encoded module.',
+    'technique': 'Lean 4 proof (invariant by induction over histories, one-step refinement lemmas per operation, permutation and infix lemmas) + differential correspondence check',
+}
 PROPS['C27'] = {
     'title': 'Component round trip preserves structure at any nesting depth',
     'props_files': ['Orca/Props/C27.lean'],
